@@ -20,6 +20,9 @@
 (*   <<"fc", broken, flat, noa>>   noa = 1: normalize_on_access             *)
 (*   <<"align", d>>   the Contextual built by doc.align (hang = align nest) *)
 (*   <<"pop", a>>     SAnnotationPop entry living on the engine's stack     *)
+(*   <<"cann", text, d>>  Annotated(CommentAnnotation(text), d) (Printers)  *)
+(*   <<"lazy", d>>    a Contextual whose evaluator ignores its arguments    *)
+(*                    and returns d (_deferred_plain_rerender)              *)
 (***************************************************************************)
 EXTENDS Naturals, Integers, Sequences, StrSplitFn
 
@@ -60,6 +63,8 @@ FillFold(docs, i, acc, prop) ==
 Norm(d) ==
   CASE d[1] \in {"t", "nil", "hl", "align", "pop", "pstr", "unmodelled"} -> d
     [] d[1] = "ann" -> <<"ann", d[2], NormDoc(d[3])>>
+    [] d[1] = "cann" -> <<"cann", d[2], NormDoc(d[3])>>
+    [] d[1] = "lazy" -> d
     [] d[1] = "cat" ->
          LET r == CatFold(d[2], 1, <<>>, FALSE)
              res == IF Len(r[1]) = 0 THEN NILT
@@ -176,7 +181,8 @@ FitsI(smart, P, mn, maxw, left, st) ==
        IN CASE k = "nil" -> FitsI(smart, P, mn, maxw, left, rest)
             [] k = "t" -> FitsI(smart, P, mn, maxw, left - d[2], rest)
             [] k \in {"cat", "fill"} -> FitsI(smart, P, mn, maxw, left, rest \o Rev(ind, m, d[2]))
-            [] k = "ann" -> FitsI(smart, P, mn, maxw, left, Append(rest, <<ind, m, d[3]>>))
+            [] k \in {"ann", "cann"} -> FitsI(smart, P, mn, maxw, left, Append(rest, <<ind, m, d[3]>>))
+            [] k = "lazy" -> FitsI(smart, P, mn, maxw, left, Append(rest, <<ind, m, NormDoc(d[2])>>))
             [] k = "nest" -> FitsI(smart, P, mn, maxw, left, Append(rest, <<ind + d[2], m, d[3]>>))
             [] k = "ab" -> FALSE
             [] k = "hl" -> IF smart /\ ind > mn
@@ -226,6 +232,9 @@ StepI(smart, W, R, s) ==
        [] k = "align" -> to(Append(rest, <<ind, m, NormDoc(<<"nest", col - ind, d[2]>>)>>))
        [] k = "ann" -> [st |-> rest \o << <<ind, m, <<"pop", d[2]>>>>, <<ind, m, d[3]>> >>,
                         col |-> col, out |-> Append(s.out, PushOut(d[2]))]
+       [] k = "cann" -> [st |-> rest \o << <<ind, m, <<"pop", -1>>>>, <<ind, m, d[3]>> >>,
+                         col |-> col, out |-> Append(s.out, PushOut(-1))]
+       [] k = "lazy" -> to(Append(rest, <<ind, m, NormDoc(d[2])>>))
        [] k = "fc" -> to(Append(rest, <<ind, m, IF m = BREAK THEN FcBroken(d) ELSE FcFlat(d)>>))
        [] k = "nest" -> to(Append(rest, <<ind + d[2], m, d[3]>>))
        [] k = "grp" ->
@@ -290,7 +299,8 @@ Wt(d) ==
     [] d[1] = "fill" -> 1 + WtSeq(d[2], 1) + Len(d[2])
     [] d[1] \in {"grp", "ab"} -> 1 + Wt(d[2])
     [] d[1] = "nest" -> 1 + Wt(d[3])
-    [] d[1] = "ann" -> 2 + Wt(d[3])
+    [] d[1] \in {"ann", "cann"} -> 2 + Wt(d[3])
+    [] d[1] = "lazy" -> 2 + 2 * Wt(d[2])
     \* normalisation may add one always_break wrapper per fill that has an always_break item,
     \* so Wt(Norm(d)) <= 2 * Wt(d); what is normalised on access is counted twice
     [] d[1] = "fc" -> 1 + 2 * Wt(d[2]) + Wt(d[3])
